@@ -386,6 +386,66 @@ theorem cached_run_executes_subset (h : Hyp cfg rank) (hG : GraphOK cfg.g cfg.re
 
 end Warm
 
+/-! ## the executable prediction of the driver (`warm_plan`) is one the theorems allow -/
+
+theorem mem_foldl_sadd {x : Key} : ∀ (ds acc : List Key), x ∈ ds.foldl (fun a d => sadd d a) acc → x ∈ acc ∨ x ∈ ds
+  | [], acc, h => Or.inl h
+  | d :: ds, acc, h => by
+    rcases mem_foldl_sadd ds (sadd d acc) h with h1 | h1
+    · rcases mem_sadd.mp h1 with rfl | h2
+      · exact Or.inr (by simp)
+      · exact Or.inl h2
+    · exact Or.inr (List.mem_cons_of_mem _ h1)
+
+theorem mem_reachFold {g : Graph} {x : Key} : ∀ (L acc : List Key),
+    x ∈ L.foldl (fun acc k => (nodeDeps g k).foldl (fun a d => sadd d a) acc) acc →
+    x ∈ acc ∨ ∃ k ∈ L, x ∈ nodeDeps g k
+  | [], acc, h => Or.inl h
+  | k :: L, acc, h => by
+    rcases mem_reachFold L _ h with h1 | ⟨j, hj, hx⟩
+    · rcases mem_foldl_sadd _ _ h1 with h2 | h2
+      · exact Or.inl h2
+      · exact Or.inr ⟨k, by simp, h2⟩
+    · exact Or.inr ⟨j, List.mem_cons_of_mem _ hj, hx⟩
+
+theorem reachIter_sound {g : Graph} {results : List Key} : ∀ (n : Nat) (found : List Key),
+    (∀ x ∈ found, Reach g results x) → ∀ x ∈ reachIter g n found, Reach g results x
+  | 0, found, h => h
+  | n + 1, found, h => by
+    apply reachIter_sound n (reachStep g found)
+    intro x hx
+    rcases mem_reachFold found found hx with h1 | ⟨k, hk, hxk⟩
+    · exact h x h1
+    · exact Reach.step (h k hk) hxk
+
+/-- every key the executable `reachSet` finds is reachable in the sense of the theorems -/
+theorem reachSet_sound {g : Graph} {results : List Key} {x : Key} (hx : x ∈ reachSet g results) : Reach g results x := by
+  refine reachIter_sound (g.length + 1) _ ?_ x hx
+  intro y hy
+  rcases mem_foldl_sadd results [] hy with h1 | h1
+  · cases h1
+  · exact Reach.base h1
+
+/-- the prediction the driver op `warm_plan` hands to the check is sound for the theorems: every key of `expectedExec` is a
+task of the graph, not cached, reachable in the warm graph (the class `cached_tasks_not_run` allows to be executed) -/
+theorem expectedExec_sound {g : Graph} {c0 : Map α} {results : List Key} {k : Key} (hk : k ∈ expectedExec g c0 results) :
+    isTask g k ∧ c0.has k = false ∧ Reach (warmGraph g c0) results k := by
+  unfold expectedExec at hk
+  obtain ⟨h1, h2⟩ := List.mem_filter.mp hk
+  refine ⟨?_, ?_, reachSet_sound h1⟩
+  · cases hg : g.get? k with
+    | none => simp [hg] at h2
+    | some nd =>
+      cases nd with
+      | data => simp [hg] at h2
+      | task deps => exact ⟨deps, hg⟩
+  · cases hg : g.get? k with
+    | none => simp [hg] at h2
+    | some nd =>
+      cases nd with
+      | data => simp [hg] at h2
+      | task deps => simpa [hg] using h2
+
 /-! ## non-vacuity and witnesses on the diamond of `Props/C01` (`0:data, 1:task[0], 2:task[0], 3:task[1,2]`, request `[3]`) -/
 section Example
 
